@@ -3,30 +3,12 @@
 (* entry points returned (obs.ndjson, with the path/document/variable       *)
 (* tables they index) and judges each against the laws of ExecLaws.  One    *)
 (* initial state per record; TLC is the judge, the Go runner only records.  *)
-EXTENDS ExecLaws, Json
+EXTENDS ExecLaws, TraceCommon, Json
 
 Paths == ndJsonDeserialize("paths.ndjson")
 Docs  == ndJsonDeserialize("docs.ndjson")
 VarsT == ndJsonDeserialize("vars.ndjson")
 Obs   == ndJsonDeserialize("obs.ndjson")
-
-(* error code "cls:flags" -> [cls, v, x, can, dl] *)
-RECURSIVE ColonAt(_, _)
-ColonAt(s, i) == IF i > Len(s) THEN 0 ELSE IF SubSeq(s, i, i) = ":" THEN i ELSE ColonAt(s, i + 1)
-HasFlag(s, from, f) == \E i \in from..Len(s) : SubSeq(s, i, i) = f
-ErrRec(code) ==
-  CASE code = "none:" -> [cls |-> "none", v |-> FALSE, x |-> FALSE, can |-> FALSE, dl |-> FALSE]
-    [] code = "verbose:vx" -> [cls |-> "verbose", v |-> TRUE, x |-> TRUE, can |-> FALSE, dl |-> FALSE]
-    [] code = "hard:x" -> [cls |-> "hard", v |-> FALSE, x |-> TRUE, can |-> FALSE, dl |-> FALSE]
-    [] code = "NULL:" -> [cls |-> "NULL", v |-> FALSE, x |-> FALSE, can |-> FALSE, dl |-> FALSE]
-    [] OTHER -> LET p == ColonAt(code, 1)
-                IN [cls |-> IF p = 0 THEN code ELSE SubSeq(code, 1, p - 1),
-                    v |-> p # 0 /\ HasFlag(code, p + 1, "v"), x |-> p # 0 /\ HasFlag(code, p + 1, "x"),
-                    can |-> p # 0 /\ HasFlag(code, p + 1, "c"), dl |-> p # 0 /\ HasFlag(code, p + 1, "d")]
-DecodeEntry(e) == [items |-> e.i, val |-> e.b, err |-> ErrRec(e.e), bad |-> e.bad]
-DecodeRun(o) ==
-  [query |-> DecodeEntry(o.q), first |-> DecodeEntry(o.f), exists |-> DecodeEntry(o.x),
-   match |-> DecodeEntry(o.m), eom |-> DecodeEntry(o.o), polls |-> o.p, mutated |-> o.mut]
 
 RecOf(o) ==
   [c |-> [path |-> [lax |-> o.lax, pred |-> Paths[o.pi].pred, chain |-> Paths[o.pi].chain],
